@@ -58,6 +58,19 @@ D = {
 "C20-1": "scan.l: CHARACTER_CONSTANT removed from the start-condition list of the [[ ]] escape rules",
 "C20-2": "scan.l set_input_file: `linenum = 1` dropped",
 "C20-3": "misc.c add_action: growth `while` -> `if`",
+"C01-4": "parse.y singleton: fullccl: qsort skipped when cclsorted - {-}/{+} results with NUL stay unsorted and lose members (wave 2)",
+"C01-5": "dfa.c snstods (REJECT branch): qsort moved behind the copy - accepting sets keep epsilon-closure order (wave 2)",
+"C02-4": "tblcmp.c mkentry interior fit: collision test ignores stored jam entries - another state's cell is overwritten (wave 2)",
+"C02-5": "cpp-flex.skl yy_get_previous_state: back-up bookkeeping dropped for full tables (wave 2)",
+"C02-6": "main.c readin: variable trailing context sets reject only after the -Cf/-CF refusal test (wave 2)",
+"C06-4": "parse.y singleton {n}: `varlength = true` replaced by `rulelen += n-1` (wave 2)",
+"C11-4": "cpp-flex.skl yypush_buffer_state: save of yy_n_chars into the buffer dropped (wave 2)",
+"C13-4": "cpp-flex.skl YY_DO_BEFORE_ACTION (%array, no yymore): `>=` -> `>` - terminator written behind yytext[] (wave 2)",
+"C13-5": "cpp-flex.skl yy_switch_to_buffer: REJECT state buffer growth test without YY_STATE_BUF_EXTRA_SPACE (wave 2)",
+"C15-4": "cpp-flex.skl yytbl_data_load: short read frees the table but leaves the pointer (double free in yytables_destroy) (wave 2)",
+"C17-4": "dfa.c snstods: rule_useful set for every running minimum (wave 2, variant of C17-2)",
+"C17-5": "nfa.c finish_rule: `continued_action` -> `pcont_act` in the line-number correction (wave 2)",
+
 }
 rows = {}
 for l in open('/verif/seeded/RESULTS.tsv'):
